@@ -31,6 +31,9 @@ def main(argv):
     workers = int(argv[argv.index("--workers") + 1]) if "--workers" in argv else 4
     only = argv[argv.index("--only") + 1].split(",") if "--only" in argv else None
     extra = ["--props", argv[argv.index("--props") + 1]] if "--props" in argv else []
+    skip = argv[argv.index("--skip") + 1].split(",") if "--skip" in argv else []
+    if skip:
+        extra = ["--props", ",".join("C%02d" % i for i in range(1, 20) if "C%02d" % i not in skip)]
     ids = sorted(x for x in os.listdir(os.path.join(VERIF, "seeded")) if os.path.exists(os.path.join(VERIF, "seeded", x, "patch.diff")))
     if only:
         ids = [i for i in ids if i in only]
@@ -45,14 +48,23 @@ def main(argv):
                 continue
             caught = sorted(k for k, v in res.items() if v["rc"] == 1)
             incon = sorted(k for k, v in res.items() if v["rc"] == 2)
-            if not extra:
+            if skip:
+                # checks skipped in this run keep their earlier verdict
+                old_c = [p for p in meta.get("caught_by_quick", []) if p in skip]
+                old_i = [p for p in meta.get("inconclusive", []) if p in skip]
+                caught = sorted(set(caught) | set(old_c))
+                incon = sorted(set(incon) | set(old_i))
+            if not extra or skip:
                 if "caught_by_quick" in meta:
                     meta.setdefault("earlier_runs", []).append({"caught_by_quick": meta.get("caught_by_quick"),
                                                                 "inconclusive": meta.get("inconclusive")})
                 meta["caught_by_quick"] = caught
                 meta["inconclusive"] = incon
-                meta["first_witness"] = {k: v["first"] for k, v in res.items() if v["rc"] == 1}
-                meta["last_run"] = {"repo_head": head, "verif_head": vhead, "at": time.strftime("%Y-%m-%d %H:%M")}
+                fw = {k: v for k, v in meta.get("first_witness", {}).items() if k in skip}
+                fw.update({k: v["first"] for k, v in res.items() if v["rc"] == 1})
+                meta["first_witness"] = fw
+                meta["last_run"] = {"repo_head": head, "verif_head": vhead, "at": time.strftime("%Y-%m-%d %H:%M"),
+                                    "checks_not_rerun": skip}
                 json.dump(meta, open(mp, "w"), indent=1)
             print(sid, "caught_by", caught, "inconclusive", incon, flush=True)
     return 0
